@@ -149,6 +149,11 @@ theorem register_before_open_leaks :
     (createEff { F with registerAfterOpen := false } true false true) = (false, true) := by
   decide
 
+/-- the text level of the definition, which the structural model does not see: the grammar takes
+    no dangling comma and no keywords run together, an untyped column gets no type, and option
+    values are used as written (only string literals lose their quotes) -/
+theorem grammar_facts : F.schemaGrammarStrict = true ∧ F.unquoteOnlyStrings = true := by decide
+
 /-- non-vacuity: the README's own example is accepted as specified -/
 example :
     create F (some [.col "id" true [.primaryKey], .col "name" true [], .col "email" true [.notNull]])
